@@ -1,5 +1,6 @@
 import PydlVerif.Model.JsonUtil
 import PydlVerif.Model.IterFit
+import PydlVerif.Model.IterFit2
 import PydlVerif.Driver.C08
 import PydlVerif.Driver.C09
 open Lean
@@ -23,6 +24,37 @@ def handle (j : Json) : Except String Json := do
     pure (C09.resJ (fun (bm : BS Float × List Bool) => Json.mkObj [
       ("bk", C09.encL bm.1.breakpoints.toList), ("bkmask", J.ofList Json.bool bm.1.mask.toList),
       ("coeff", C09.encL bm.1.coeff.toList), ("outmask", J.ofList Json.bool bm.2)]) r)
+  | "iterfit_full" =>
+    -- the full call: requiren / oldset (an object: nord, bk, mask, coeff) / groupbadpix; the "at most one good point" branch
+    let xs ← C09.floats j "x"
+    let ys ← C09.floats j "y"
+    let ivs ← C09.floats j "iv"
+    let perm ← J.fNats j "perm"
+    let o ← C08.optsOf C08.floatCodec j
+    let p : Params Float := { upper := ← optF j "upper", lower := ← optF j "lower", maxiter := ← J.fNat j "maxiter",
+                              nord := ← J.fNat j "nord", opts := o }
+    let fo : FullOpts Float := { requiren := ← J.fOpt J.nat j "requiren", oldset := ← J.fOpt C09.bsOf j "oldset",
+                                 groupbadpix := (← J.fOpt J.bool j "groupbadpix").getD false }
+    let r := iterfitFull C09.kernelsF C08.floatCodec.r32 p fo xs ys ivs perm
+    pure (C09.resJ (fun (bm : FullOut Float) => Json.mkObj [
+      ("bk", C09.encL bm.sset.breakpoints.toList), ("bkmask", J.ofList Json.bool bm.sset.mask.toList),
+      ("coeff", C09.encL bm.sset.coeff.toList), ("cz", Json.bool bm.cz), ("outmask", J.ofList Json.bool bm.outmask)]) r)
+  | "iterfit2" =>
+    -- iterfit with the second variable x2 (2-D fit, npoly >= 1)
+    let xs ← C09.floats j "x"
+    let ys ← C09.floats j "y"
+    let ivs ← C09.floats j "iv"
+    let x2s ← C09.floats j "x2"
+    let perm ← J.fNats j "perm"
+    let o ← C08.optsOf C08.floatCodec j
+    let p : Params Float := { upper := ← optF j "upper", lower := ← optF j "lower", maxiter := ← J.fNat j "maxiter",
+                              nord := ← J.fNat j "nord", opts := o }
+    let r := iterfit2 C09.kernelsF C08.floatCodec.r32 p (← J.fNat j "npoly") ((← J.fOpt J.bool j "groupbadpix").getD false)
+      xs ys ivs x2s perm
+    pure (C09.resJ (fun (bm : Out2 Float) => Json.mkObj [
+      ("bk", C09.encL bm.sset.base.breakpoints.toList), ("bkmask", J.ofList Json.bool bm.sset.base.mask.toList),
+      ("coeff", C09.encM bm.sset.coeff2), ("cz", Json.bool bm.cz), ("outmask", J.ofList Json.bool bm.outmask),
+      ("xmin", J.ofFloat bm.sset.xmin), ("xmax", J.ofFloat bm.sset.xmax)]) r)
   | _ => throw s!"C10: unknown op {op}"
 
 end PydlVerif.Driver.C10
